@@ -1,13 +1,19 @@
+import Desert.Lemmas.RoundTripFull
 import Desert.Lemmas.Transient
 import Desert.Lemmas.EnumLemmas
 /-!
-# C02 — round-trip fidelity of derived struct and enum codecs (partial)
+# C02 — round-trip fidelity of derived struct and enum codecs
 
 `Decl` / `TyDecl` interpreted by `enc` / `dec` *is* the documented field-by-field procedure; the
 `decl` family compares it with the real macro expansion on every run (translation validation).
-Theorems: derived structs and enums without evolution steps, at any nesting and recursion, with
-optional and transient fields and transient / sorted constructors. Declarations with evolution
-steps: see the chunk-layout theorem below; their round trip is checked by correspondence only.
+Theorems: derived structs and enums, at any nesting and recursion, with optional and transient
+fields, transient / sorted constructors, **and evolution steps** (`FieldAdded`, `FieldMadeOptional`,
+`FieldRemoved`, `FieldMadeTransient`): the value written in the chunked layout with its evolution
+header is read back by the same definition. The hypothesis `EnvWF` is the decidable check
+`declWFb` on each declaration (`DeclWF.lean`: the limits of the position byte, removed names are
+not names of serialized fields, a field announced as made-optional is optional); it is evaluated
+below on the repository's `Point`, and by the driver on every declaration the harness generates.
+Reading data written by an *older* definition is C03.
 -/
 set_option linter.unusedVariables false
 set_option linter.unusedSimpArgs false
@@ -16,10 +22,10 @@ namespace C02
 
 /-- a derived struct or enum value decodes, with the same definition, to the original value with
 transient fields replaced by their defaults; whatever follows is untouched -/
-theorem derived_roundtrip (env : Env) (henv : EnvV0 env) (id : String) (v : Val) (b : Bytes) (st' : EncSt) (fuel : Nat)
+theorem derived_roundtrip (env : Env) (henv : EnvWF env) (id : String) (v : Val) (b : Bytes) (st' : EncSt) (fuel : Nat)
     (he : enc env (.named id) v [] = .ok (b, st')) (hu : v.utf8OK) (hd : v.depth < fuel) (t : Bytes) :
     ∃ s', runAbs (dec env fuel (.named id)) (AbsSrc.new (b ++ t)) = .ok (normalize env (.named id) v, s') ∧ s'.view = t :=
-  ⟨_, ((rt_all env henv v).1 (.named id) [] b st' fuel he hu (by simp [StOK]) hd (AbsSrc.new (b ++ t)) t
+  ⟨_, ((rt_wf env henv v).1 (.named id) [] b st' fuel he hu (by simp [StOK]) hd (AbsSrc.new (b ++ t)) t
     (WF_new _) (view_new _) rfl).1, view_after_append (view_new _) _⟩
 
 /-- decoding a round-tripped value again gives the same value (the normal form is stable) -/
@@ -79,5 +85,19 @@ def pointDecl : Decl :=
 example : encodeTop [("Point", .record pointDecl)] (.named "Point")
       (.list (.vcons (.int 1) (.vcons (.int (-10)) (.vcons .none .vnil))))
     = .ok [0x02, 0x08, 0x08, 0x03, 0x02, 0x7a, 0xff, 0xff, 0xff, 0xf6, 0, 0, 0, 1] := by decide
+
+def pointEnv : Env := [("Point", .record pointDecl)]
+
+/-- the evolved `Point` passes the well-formedness check, so the theorems above apply to it -/
+theorem pointEnv_wf : EnvWF pointEnv := EnvWF_of_check (by decide)
+
+/-- … and every `Point` value round-trips through its version-2 chunked layout -/
+theorem point_roundtrip (v : Val) (b : Bytes) (st' : EncSt) (fuel : Nat)
+    (he : enc pointEnv (.named "Point") v [] = .ok (b, st')) (hu : v.utf8OK) (hd : v.depth < fuel) (t : Bytes) :
+    ∃ s', runAbs (dec pointEnv fuel (.named "Point")) (AbsSrc.new (b ++ t)) = .ok (normalize pointEnv (.named "Point") v, s') ∧ s'.view = t :=
+  derived_roundtrip pointEnv pointEnv_wf "Point" v b st' fuel he hu hd t
+
+/-- headerless declarations whose transient fields have defaults are well-formed: `EnvWF` only adds cases -/
+theorem headerless_wf (env : Env) (h : EnvV0 env) : EnvWF env := h.toWF
 
 end C02
